@@ -24,11 +24,14 @@ func init() {
 		Mutant{"C44", "bitsize-63", "internal/api/paginate.go",
 			"tmp, err := strconv.ParseUint(pageStr, 10, 31)", "tmp, err := strconv.ParseUint(pageStr, 10, 63)", "C44.no_overflow.int64"},
 		Mutant{"C44", "upper-bound-off", "internal/api/paginate.go",
-			"maxVal := min((page+1)*itemsPerPage, itemsLen)", "maxVal := min(page*itemsPerPage+1, itemsLen)", "C44.slice.upper"},
+			"maxVal := int(min((int64(page)+1)*int64(itemsPerPage), int64(itemsLen)))", "maxVal := int(min(int64(page)*int64(itemsPerPage)+1, int64(itemsLen)))", "C44.slice.upper"},
 		Mutant{"C44", "lower-bound-unclamped", "internal/api/paginate.go",
-			"minVal := min(page*itemsPerPage, itemsLen)", "minVal := page * itemsPerPage", "C44.slice.lower"},
+			"minVal := int(min(int64(page)*int64(itemsPerPage), int64(itemsLen)))", "minVal := page * itemsPerPage", "C44.slice.lower"},
 		Mutant{"C44", "args-swapped", "internal/api/paginate.go",
 			"return paginate2(itemsPtr, itemsPerPage, page), nil", "return paginate2(itemsPtr, page, itemsPerPage), nil", "C44."},
+		// the pre-fix code: bounds computed in int overflow on the 32-bit releases
+		Mutant{"C44", "bounds-in-int", "internal/api/paginate.go",
+			"minVal := int(min(int64(page)*int64(itemsPerPage), int64(itemsLen)))", "minVal := min(page*itemsPerPage, itemsLen)", "C44.no_overflow.int32"},
 		Mutant{"C44", "page-count-floor", "internal/api/paginate.go",
 			"if (itemsLen % itemsPerPage) != 0 {", "if (itemsLen % itemsPerPage) == 0 {", "C44.page_count"},
 		Mutant{"C44", "error-swallowed-in-handler", "internal/api/api_recordings.go",
@@ -292,8 +295,11 @@ func runC44(c *Ctx) {
 	c.Check("C44.slice.recv", "paginate2: the reflect value is Elem(ValueOf(items pointer parameter))",
 		desc(recv) == "(reflect.Value).Elem(reflect.ValueOf($0))", p.Pos(sliceCall.Pos()), desc(recv))
 	ipp, page := ssa.Value(p2.Params[1]), ssa.Value(p2.Params[2])
+	// lossless widening/narrowing conversions around the operands (the bound
+	// arithmetic may be done in int64) are transparent for the shape; their
+	// ranges are decided by the interval rules above.
 	minWithLen := func(v ssa.Value) ssa.Value { // min(X, L) -> X
-		cl, ok := v.(*ssa.Call)
+		cl, ok := stripConv(v).(*ssa.Call)
 		if !ok {
 			return nil
 		}
@@ -301,26 +307,26 @@ func runC44(c *Ctx) {
 		if !ok || bi.Name() != "min" || len(cl.Call.Args) != 2 {
 			return nil
 		}
-		if cl.Call.Args[1] == ssa.Value(lenCall) {
-			return cl.Call.Args[0]
+		if stripConv(cl.Call.Args[1]) == ssa.Value(lenCall) {
+			return stripConv(cl.Call.Args[0])
 		}
-		if cl.Call.Args[0] == ssa.Value(lenCall) {
-			return cl.Call.Args[1]
+		if stripConv(cl.Call.Args[0]) == ssa.Value(lenCall) {
+			return stripConv(cl.Call.Args[1])
 		}
 		return nil
 	}
 	isMul := func(v ssa.Value, a, b func(ssa.Value) bool) bool {
-		m, ok := v.(*ssa.BinOp)
+		m, ok := stripConv(v).(*ssa.BinOp)
 		return ok && m.Op == token.MUL && ((a(m.X) && b(m.Y)) || (a(m.Y) && b(m.X)))
 	}
-	is := func(w ssa.Value) func(ssa.Value) bool { return func(v ssa.Value) bool { return v == w } }
+	is := func(w ssa.Value) func(ssa.Value) bool { return func(v ssa.Value) bool { return stripConv(v) == w } }
 	isPagePlus1 := func(v ssa.Value) bool {
-		a, ok := v.(*ssa.BinOp)
+		a, ok := stripConv(v).(*ssa.BinOp)
 		if !ok || a.Op != token.ADD {
 			return false
 		}
 		one := func(x ssa.Value) bool { n, ok := constBig(x); return ok && n.Cmp(big.NewInt(1)) == 0 }
-		return (a.X == page && one(a.Y)) || (a.Y == page && one(a.X))
+		return (stripConv(a.X) == page && one(a.Y)) || (stripConv(a.Y) == page && one(a.X))
 	}
 	lo, hi := minWithLen(sliceCall.Call.Args[1]), minWithLen(sliceCall.Call.Args[2])
 	loOK := lo != nil && isMul(lo, is(page), is(ipp))
@@ -329,9 +335,9 @@ func runC44(c *Ctx) {
 	if hi != nil {
 		if isMul(hi, isPagePlus1, is(ipp)) {
 			hiOK = true
-		} else if a, ok := hi.(*ssa.BinOp); ok && a.Op == token.ADD {
+		} else if a, ok := stripConv(hi).(*ssa.BinOp); ok && a.Op == token.ADD {
 			pq := func(v ssa.Value) bool { return isMul(v, is(page), is(ipp)) }
-			hiOK = (pq(a.X) && a.Y == ipp) || (pq(a.Y) && a.X == ipp)
+			hiOK = (pq(a.X) && stripConv(a.Y) == ipp) || (pq(a.Y) && stripConv(a.X) == ipp)
 		}
 	}
 	c.Check("C44.slice.upper", "paginate2: Slice upper bound is min((page+1)*itemsPerPage, Len)", hiOK, p.Pos(sliceCall.Pos()), "got "+desc(sliceCall.Call.Args[2]))
